@@ -477,7 +477,7 @@ def build_items(run):
         if "defective" in pid or "development" in pid:
             continue
         items.append({"id": pid, "text": text, "optsets": optsets[:2], "D": D})
-    for pid, text, goals in families.generated(run.quick, run.seed, count=(60 if run.quick else 600)):
+    for pid, text, goals in families.generated(run.quick, run.seed, count=(60 if run.quick else 200)):   # 200: the thorough tier is sized to about 20 minutes
         items.append({"id": pid, "text": text, "optsets": optsets, "D": D})
     for pid, text, goals in families.symbolic_templates(run.quick, run.seed):
         items.append({"id": pid, "text": text, "optsets": optsets, "D": D})
@@ -489,7 +489,7 @@ def build_items(run):
 def main():
     run = Run("C02", "translation_validation")
     items = build_items(run)
-    results = jobs.run_jobs(job, items, timeout=100 if run.quick else 900)
+    results = jobs.run_jobs(job, items, timeout=100 if run.quick else 300)
     run.notes.append({"slowest_jobs": jobs.slowest(items, lambda it: it["id"])})
     programs = checked = stages = muts = 0
     passes = {}
